@@ -183,7 +183,18 @@ let handle kind c =
     check_tree "" !fs st tree
   | "multi" ->
     (* two storage roots x three bucket names in one process; a bucket is (root, name) *)
-    let ops = next_list c (fun c -> let r = next_n c in let j = next_n c in let o = parse_op c in ((r, j), o)) in
+    (* an operation addressed to bucket (r, j); "x" = storage.Copy from (r, j) to another bucket *)
+    let ops = next_list c (fun c ->
+        let r = next_n c in
+        let j = next_n c in
+        if next c = "x" then begin
+          let r2 = next_n c in let j2 = next_n c in
+          let d = next_bytes c in let sr = next_bytes c in let ok = next_bool c in
+          ((r, j), { (mk (OCopy (d, sr)) ("C:" ^ string_of_bool ok)) with lctx = "cross" }, Some (r2, j2))
+        end else begin
+          c.pos <- c.pos - 1;
+          ((r, j), parse_op c, None)
+        end) in
     let confined = next_bool c in
     let w = ref world_init in
     let states = Hashtbl.create 8 in
@@ -191,9 +202,28 @@ let handle kind c =
       | Some st -> st
       | None -> let st = new_bstate () in Hashtbl.add states b st; st in
     let i = ref 0 in
-    List.iter (fun (b, o) ->
+    List.iter (fun (b, o, cross) ->
         incr i;
         let label = Printf.sprintf "op %d on bucket (root %d, name %d)" !i (int_of_n (fst b)) (int_of_n (snd b)) in
+        match cross, o.op with
+        | Some b2, OCopy (d, sr) ->
+          (* Copy(dst in b2, src in b) = write(dst, read(src)), composed of the proved operations *)
+          let expect read_src write_dst = match read_src with
+            | RR (ROk ct) -> (match write_dst ct with RW ok -> ok | _ -> false)
+            | _ -> false in
+          let label = Printf.sprintf "%s copy to bucket (root %d, name %d) dst=%S src=%S" label
+              (int_of_n (fst b2)) (int_of_n (snd b2)) (string_of_bytes d) (string_of_bytes sr) in
+          (* model *)
+          let ((_, rsrc), _) = step_world !w (b, ORead sr) in
+          let mok = expect rsrc (fun ct -> let ((_, r), w') = step_world !w (b2, OWrite (d, ct)) in w := w'; r) in
+          if ("C:" ^ string_of_bool mok) <> o.impl then diff (Printf.sprintf "op%d-cross-copy" !i) ~model:(string_of_bool mok) ~impl:o.impl;
+          (* property: the strict maps of the two buckets *)
+          let ss = state_of b and sd = state_of b2 in
+          let (rs, _) = step_spec true ss.sp (ORead sr) in
+          let sok = expect rs (fun ct -> let (r, sp') = step_spec true sd.sp (OWrite (d, ct)) in sd.sp <- sp'; r) in
+          if ("C:" ^ string_of_bool sok) <> o.impl then
+            prop "copy-outcome" (Printf.sprintf "%s: property expects %b, storage.Copy answered %s" label sok o.impl)
+        | _ ->
         (* model: the world of independent buckets *)
         (match o.op with
          | OList _ ->
